@@ -24,8 +24,9 @@ FORM = {'data1': 0x0b, 'string': 0x08, 'flag_present': 0x19, 'ref4': 0x13, 'addr
 class CU:
     """One compile unit: a root DIE with children, every child with an abbreviation of its own."""
 
-    def __init__(self, version=4, asz=8, le=True, unit_type=1, root_tag=0x11, header_extra=b''):
+    def __init__(self, version=4, asz=8, le=True, unit_type=1, root_tag=0x11, header_extra=b'', fmt=32):
         self.version, self.asz, self.le = version, asz, le
+        self.fmt = fmt          # 32- or 64-bit DWARF format
         self.unit_type = unit_type
         self.root_tag = root_tag
         self.header_extra = header_extra
@@ -43,7 +44,7 @@ class CU:
         self.kids.append((tag, a, children))
 
     def header_size(self):
-        return (11 if self.version < 5 else 12) + len(self.header_extra)
+        return (11 if self.version < 5 else 12) + len(self.header_extra) + (12 if self.fmt == 64 else 0)
 
     def build(self, abbrev_base=0, info_base=0):
         """-> (info bytes, abbrev bytes, [offset of every child DIE relative to the unit])"""
@@ -85,11 +86,15 @@ class CU:
         body.append(0)
         ab.append(0)
         E = self.E()
+        O = 'Q' if self.fmt == 64 else 'I'
         if self.version < 5:
-            hdr = struct.pack(E + 'HIB', self.version, abbrev_base, self.asz)
+            hdr = struct.pack(E + 'H' + O + 'B', self.version, abbrev_base, self.asz)
         else:
-            hdr = struct.pack(E + 'HBBI', self.version, self.unit_type, self.asz, abbrev_base) + self.header_extra
-        unit = struct.pack(E + 'I', len(hdr) + len(body)) + hdr + bytes(body)
+            hdr = struct.pack(E + 'HBB' + O, self.version, self.unit_type, self.asz, abbrev_base) + self.header_extra
+        if self.fmt == 64:
+            unit = b'\xff\xff\xff\xff' + struct.pack(E + 'Q', len(hdr) + len(body)) + hdr + bytes(body)
+        else:
+            unit = struct.pack(E + 'I', len(hdr) + len(body)) + hdr + bytes(body)
         return unit, bytes(ab), offs
 
 
@@ -98,7 +103,7 @@ def expr_block(b):
 
 
 # ---------------------------------------------------------------- DW_OP table
-def op_variants(op, spec, le, asz):
+def op_variants(op, spec, le, asz, osz=4):
     """Operand encodings for one opcode: a small-valued and a large/negative-valued variant."""
     order = 'little' if le else 'big'
     small = {'u1': 5, 's1': 3, 'u2': 300, 's2': 300, 'u4': 70000, 's4': 70000, 'u8': 2 ** 33, 's8': 2 ** 33,
@@ -118,7 +123,9 @@ def op_variants(op, spec, le, asz):
                 b += sleb(vals[k])
             elif k == 'addr':
                 b += vals[k].to_bytes(asz, order)
-            elif k in ('off', 'ref4'):
+            elif k == 'off':
+                b += vals[k].to_bytes(osz, order)
+            elif k == 'ref4':
                 b += vals[k].to_bytes(4, order)
             elif k == 'blk':
                 b += expr_block(bytes([1, 2, 0xab]) if vals is small else bytes(range(0x10, 0x1a)))
